@@ -296,6 +296,39 @@ theorem new_poller_consistent (s : Store) (st : PState) (hw : NoWrap s)
     (hinit : applyDiff s.init [] = .ok s.init) (h : newPoller s = some st) : Consistent st :=
   newPoller_consistent hw hinit h
 
+/-- Whatever the batch validator of C04 accepts (from any base), the poller accepts certificate by
+certificate. (The converse does not hold: the poller passes no base tipset, so it does not check
+that consecutive chains link; linkage of quorum-signed decisions is a consequence of agreement,
+C01/C03, not of this check.) -/
+theorem validRun_pollRun (net : Nat) (s s' : VState) (cs : List Cert)
+    (h : ValidRun net s cs s') : PollRun net (s.next, s.table) cs (s'.next, s'.table) := by
+  induction h with
+  | nil s => exact PollRun.nil _
+  | @cons s c nt cs s' hv _ ih =>
+    refine PollRun.cons ⟨hv.inst, hv.chain_valid, hv.chain_nonempty, ?_, hv.signed, hv.delta, hv.committed⟩ ih
+    intro b hb; cases hb
+
+/-- `CatchUp` after certificates reached the store through another channel (GPBFT itself): the
+poller jumps to the store's next instance and latest table, and is consistent again. -/
+theorem catchUp_resync (st : PState) (lt : Table) (hw : NoWrap st.store)
+    (hne : st.store.certs ≠ []) (hlt : st.store.latestTable = some lt)
+    (hcanon : applyDiff lt [] = .ok lt) (hbehind : st.next ≠ st.store.nextInst) :
+    catchUp st = some ⟨st.store.nextInst, lt, st.store⟩ ∧
+      Consistent ⟨st.store.nextInst, lt, st.store⟩ := by
+  have hlen : st.store.certs.length ≠ 0 := fun h => hne (List.eq_nil_of_length_eq_zero h)
+  have hp : 0 < st.store.nextInst := by unfold Store.nextInst; omega
+  have hu : u64 (st.store.nextInst - 1 + 1) = st.store.nextInst := by
+    rw [show st.store.nextInst - 1 + 1 = st.store.nextInst by omega]
+    exact u64_of_lt (by unfold NoWrap at hw; unfold Store.nextInst; exact hw)
+  refine ⟨?_, ⟨rfl, hlt, hcanon⟩⟩
+  unfold catchUp
+  rw [latest?_eq]
+  simp only [hlen, if_false, hu]
+  have hne' : ¬ st.store.nextInst = st.next := fun h => hbehind h.symm
+  simp only [hne', if_false]
+  unfold Store.latestTable at hlt
+  rw [hlt]
+
 /-- What `PollRun` means, unrolled: the accepted certificates have consecutive instance numbers
 from `NextInstance` and each is a valid certificate for the table reached by its predecessors. -/
 theorem pollRun_instances (net : Nat) (x y : Nat × Table) (acc : List Cert) (h : PollRun net x acc y)
